@@ -24,6 +24,8 @@ TRUSTED = [
     "rustc layout and code generation, core::str / CStr, Box, ptr_meta (modelled, compared on generated inputs only)",
     "harness (Rust), check.py, FNV-1a-64 hashing of observations",
     "tools/gen_source.py (translator: Rust struct definitions / ID and BASE_SIZE constants / one-line accessors -> lean/Mb2/Gen/Source.lean, regenerated on every run; the repr(C) layout algorithm it implements is the documented one; facts it cannot derive are `none` and counted below)",
+    "tools/gen_fns.py (translator: bodies of 65 functions / constructors -> closed terms of the IR lean/Mb2/Rir.lean in lean/Mb2/Gen/Fns.lean, regenerated on every run; trusted: its parser and lowering for the Rust fragment used, and the evaluator's reading of Rust integer semantics - dev panics / release wraps on overflow, `as` truncates; sub-expressions it has no meaning for are universally quantified inputs of the theorems; untranslatable functions are `none` and listed below)",
+    "tools/gen_builders.py (translator: the statements of build() and the setters of the two Builder impls -> lean/Mb2/Gen/Builders.lean, regenerated on every run; anything that is not the expected push / assignment form is reported as `other` and fails the agreement theorem)",
 ]
 
 
